@@ -217,6 +217,40 @@ func checkCommonRoot(w *World, r *Result) {
 		}
 		return true
 	})
+	// ... and the containment test itself is applied to every element: it sits inside such a loop and reads the
+	// loop's element (comparing only selected elements -- the smallest and largest in byte order, the first and
+	// the last -- is not enough: `store-gen` sorts between `store` and `store/pg`)
+	ntests := 0
+	ast.Inspect(rootFn.Decl.Body, func(x ast.Node) bool {
+		call, ok := x.(*ast.CallExpr)
+		if !ok || fullName(calleeOf(rinfo, call)) != "strings.HasPrefix" {
+			return true
+		}
+		ntests++
+		inLoop := false
+		ast.Inspect(rootFn.Decl.Body, func(y ast.Node) bool {
+			rs, ok := y.(*ast.RangeStmt)
+			if !ok || !(rs.Body.Pos() <= call.Pos() && call.End() <= rs.Body.End()) {
+				return true
+			}
+			root := rootIdent(rs.X)
+			v := identOf(rs.Value)
+			if root == nil || objOf(rinfo, root) != param || v == nil {
+				return true
+			}
+			if usesObj(rinfo, call, rinfo.Defs[v]) {
+				inLoop = true
+			}
+			return true
+		})
+		r.cond(inLoop, "FLW-C17a", rootFn.Name, "containment test applied to every input: "+es(call), w.Pos(call.Pos()),
+			"the test is inside a loop over all inputs and reads the loop's element",
+			"the containment test is not applied to each input directory (it is outside a loop over the inputs, or does not read the loop's element): the returned root is only checked against selected elements, and a file can lie outside it")
+		return true
+	})
+	if ntests == 0 {
+		Undecided("%s: no containment test (strings.HasPrefix) found", rootFn.Name)
+	}
 	r.cond(loopAll, "FLW-C17a", rootFn.Name, "every input directory takes part", fnPos(w, rootFn), "a loop over all elements of the input", "the common root is computed from some of the inputs only (e.g. first and last): with an unsorted list a file can lie outside the returned root")
 }
 
